@@ -4,9 +4,11 @@ import (
 	"bytes"
 	"encoding/json"
 	"fmt"
+	"math/rand"
 	"os"
 	"path/filepath"
 	"runtime/debug"
+	"sort"
 	"strings"
 	"time"
 
@@ -16,6 +18,7 @@ import (
 	"github.com/cloudflare/pint/verifharness/gen"
 	"github.com/cloudflare/pint/verifharness/hx"
 	"github.com/cloudflare/pint/verifharness/pipe"
+	promParser "github.com/prometheus/prometheus/promql/parser"
 )
 
 func init() { props["C02"] = runC02 }
@@ -246,6 +249,53 @@ var c02HostileExprs = []string{
 	`count_values("a(b", up)`, `up offset -5m @ end()`, `up[5m:1s] > 0`, `1 > bool 2`, `-(-up)`, `up{job=~"(?i)x"}`, `up{job=~"x{1,3}"}`, `up{job=~"["}`,
 }
 
+// c02FunctionZoo: any PromQL function of the vendored parser applied to arguments of the right type that were not read
+// from a time series (vector(...) of a scalar, subqueries of it, absent(...)) or were: sources without a selector are
+// where the analysis dereferences what is not there (seeded change C02-function-of-vector-nil-selector)
+func c02FunctionZoo(rr *rand.Rand) string {
+	names := make([]string, 0, len(promParser.Functions))
+	for n := range promParser.Functions {
+		names = append(names, n)
+	}
+	sort.Strings(names)
+	var arg func(t promParser.ValueType, depth int) string
+	call := func(depth int) string {
+		f := promParser.Functions[hx.Pick(rr, names)]
+		var args []string
+		for _, t := range f.ArgTypes {
+			args = append(args, arg(t, depth))
+		}
+		if f.Variadic != 0 && len(args) > 0 && rr.Intn(2) == 0 {
+			args = args[:len(args)-1]
+		}
+		return f.Name + "(" + strings.Join(args, ", ") + ")"
+	}
+	arg = func(t promParser.ValueType, depth int) string {
+		switch t {
+		case promParser.ValueTypeVector:
+			if depth > 0 && rr.Intn(3) == 0 {
+				return call(depth - 1)
+			}
+			return hx.Pick(rr, []string{"vector(1)", "vector(time() + 3600)", "up", "sum(up)", "(up or vector(0))", "absent(up)", "absent(vector(1))", "-vector(1)", "(vector(1) > 0)", "sum by (job) (vector(1))", "scalar(up) * vector(2)"})
+		case promParser.ValueTypeMatrix:
+			return hx.Pick(rr, []string{"up[5m]", "vector(1)[1h:1m]", "(vector(1) + up)[10m:1m]", "absent(up)[5m:]", "sum(up)[5m:30s]"})
+		case promParser.ValueTypeScalar:
+			return hx.Pick(rr, []string{"1", "0", "time()", "scalar(up)", "scalar(vector(1))", "-1", "pi()"})
+		case promParser.ValueTypeString:
+			return hx.Pick(rr, []string{`"a"`, `"__name__"`, `""`, `"(.*)"`, `("a")`})
+		}
+		return "1"
+	}
+	q := call(1 + rr.Intn(2))
+	switch rr.Intn(4) {
+	case 0:
+		return q + " > 0"
+	case 1:
+		return "sum(" + q + ")"
+	}
+	return q
+}
+
 var c02HostileTemplates = []string{
 	`{{ $x := .Labels }}{{ $x := $x }}{{ $x.job }}`, `{{ $a := $b }}`, `{{ $a := .Value }}{{ $b := $a }}{{ $a = $b }}{{ $b }}`,
 	`{{ $labels := $labels }}{{ $labels.job }}`, `{{ $value := $value }}{{ $value }}`, `{{ with $x := .Labels }}{{ with $x := $x }}{{ $x.a }}{{ end }}{{ end }}`,
@@ -366,7 +416,16 @@ func c02Mutate(r *hx.Run, s string) string {
 	case 15: // a hostile PromQL expression in place of some value (quoted UTF-8 label names, metacharacters, odd matchers)
 		k := rr.Intn(len(lines))
 		if i := strings.Index(lines[k], "expr: "); i >= 0 {
-			lines[k] = lines[k][:i+6] + hx.Pick(rr, c02HostileExprs)
+			switch rr.Intn(3) {
+			case 0:
+				lines[k] = lines[k][:i+6] + hx.Pick(rr, c02HostileExprs)
+			case 1:
+				// every query shape the label-flow generator of C04 / C12 knows
+				g := &lfGen{rr: rr}
+				lines[k] = lines[k][:i+6] + g.vec(1+rr.Intn(3))
+			default:
+				lines[k] = lines[k][:i+6] + c02FunctionZoo(rr)
+			}
 		}
 		return strings.Join(lines, "\n")
 	case 16: // a hostile template in place of a label / annotation value
